@@ -262,7 +262,13 @@ func run(c *rig.Ctx) {
 				c.Violate("program-"+class, msg, map[string]any{"program": p.Describe()})
 			}
 		}
-		f.RunCycles(int(c.N(20000, 60000)))
+		if i%2 == 1 {
+			// key events at random machine cycles: they are no business of the CPU's
+			_, keys := f.RunCyclesWithKeys(int(c.N(20000, 60000)), r, 250)
+			c.Count("key_events_during_programs", int64(keys))
+		} else {
+			f.RunCycles(int(c.N(20000, 60000)))
+		}
 		c.Count("program_dispatches", f.Dispatches)
 		c.Count("program_instructions", f.Instrs)
 		c.Eval(f.Instrs + f.Dispatches)
